@@ -118,24 +118,19 @@ func (i *interpreter) bind(fr *frame, src value, dst types.Type, path string) va
 			return load(dst, p)
 		}
 	}
-	// hook: secretConfigDecoderHook
-	if n, ok := dst.(*types.Named); ok && n.Obj().Name() == "SecretConfig" {
-		if m, ok := raw.(*omap); ok && m != nil {
-			if ext, ok := m.lookup(i, "#extensions"); ok {
-				if em, ok := unwrapAny(ext).(*omap); ok && em != nil {
-					if val, ok := em.lookup(i, "x-#value"); ok && isStr(unwrapAny(val)) {
-						nm := &omap{kt: m.kt, idx: map[interface{}]*mentry{}}
-						for _, e := range m.live() {
-							nm.insert(i, e.key, e.val)
-						}
-						nm.insert(i, "Content", val)
-						em.delete(i, "x-#value")
-						if em.len() == 0 {
-							nm.delete(i, "#extensions")
-						}
-						raw = nm
-					}
+	// hook: secretConfigDecoderHook - the real function (it only needs reflect.Type values, which the
+	// interpreter's reflect emulation provides); called like mapstructure does for every map-valued node
+	if m, ok := raw.(*omap); ok && m != nil {
+		if hook := i.loaderFunc("secretConfigDecoderHook"); hook != nil {
+			from := makeReflectType(rtype{types.NewMap(types.Typ[types.String], anyType)})
+			to := makeReflectType(rtype{dst})
+			res := call(i, fr, token.NoPos, hook, []value{from, to, asAny(raw)})
+			if tp, ok := res.(tuple); ok && len(tp) == 2 {
+				if e, ok := tp[1].(iface); ok && e.t != nil {
+					msg := call(i, fr, token.NoPos, i.methodByName(e.t, "Error"), []value{e.v})
+					panic(bindErr{fmt.Sprintf("'%s' %s", path, i.concStr(msg))})
 				}
+				raw = unwrapAny(tp[0])
 			}
 		}
 	}
